@@ -180,11 +180,12 @@ def catalogue_cases(rng, n):
             if code == '*':
                 a += rng.choice(['', '*'])
             elif code == 'O':
-                a += rng.choice(['', '[oo]', '[o p]'])
+                a += rng.choice(['', '[oo]', '[o p]', '[o \\$4 p]'])
             else:
                 a += '{german}' if name in ('\\foreignlanguage', '\\selectlanguage',
                                             'otherlanguage', 'otherlanguage*') \
-                    else rng.choice(['{ma}', '{ma mb}', '{m}', '{ma % c\n  mb}', '{\n ma\n}', '{ma~mb--mc}'])
+                    else rng.choice(['{ma}', '{ma mb}', '{m}', '{ma % c\n  mb}', '{\n ma\n}', '{ma~mb--mc}',
+                                '{ma \\$5 and \\{b\\} \\& c}'])
         if kind == 'm':
             call = name + a
             if call[-1].isalpha() or call[-1] == '@':
